@@ -22,6 +22,14 @@ CHECKS = {
                 text="FetchExactlyMissing invariant of Clone.tla model-checked; on the real code every request at the ArchiveReader boundary is recorded and validated by TLC: only header reads and exactly the stored ranges of the chunks neither the output scan nor a seed provided, each once.",
                 note="requests observed at the ArchiveReader trait boundary (RecordingReader)",
                 tech="TLA+ spec + TLC; TLC trace validation of recorded archive requests"),
+    "C07": dict(cat="model_checking", design="6 C07",
+                text="Reader.tla's NewRun/AdjCount (maximal runs of adjacent chunks) model-checked for every subset of the descriptors of four archive layouts (contiguous, gapped, permuted, descending); every subset replayed against the real HttpReader with a scripted TCP server; the ordered Range headers the server saw must be exactly the model's Send steps (TLC trace validation).",
+                note="requests observed at the TCP server, which no client-side change can bypass; no transfer failures in this check (the property's premise)",
+                tech="TLA+ spec + TLC exhaustive over subsets; TLC-generated behaviours replayed; TLC trace validation of server-side request log"),
+    "C08": dict(cat="model_checking", design="6 C08",
+                text="Reader.tla (ChunkReader + HttpRangeRequest + read_at + IoChunkReader) model-checked over chunk lists x retry budgets x every server behaviour at every byte offset x every body fragmentation; all behaviours replayed against the real HttpReader (whole bodies and 1-byte fragments) and IoReader (short reads, Pending); server log drives the model, consumer log must equal what the model delivered.",
+                note="cut = FIN after k bytes of a longer Content-Length (D9); one connection per request",
+                tech="TLA+ spec + TLC exhaustive fault enumeration; TLC-generated behaviours replayed; TLC trace validation"),
     "C13": dict(cat="model_checking", design="6 C13",
                 text="WriteDiscipline (W1 whole source chunk at one of its offsets, W2 once, W3 never an in-place location, W4 nothing beyond the source) as a rule on every WriteOut step of Clone.tla, model-checked; every write of every replayed scenario on the real code is validated against the same rule by TLC.",
                 note="writes observed at the AsyncWrite boundary of an instrumented in-memory file with content projected to chunk cells",
